@@ -22,7 +22,9 @@ RULE = ('Generated histories of emit(to=sid, callback=cb_k) and call() to '
         'outstanding one), acknowledgements (text or binary) on a namespace '
         'that their living transport has left or never joined, '
         'and with disconnects (3 kinds) and reconnects; for call(): generated '
-        'orders of {right ACK, wrong ACK, client disconnect, timeout}. '
+        'orders of {right ACK, wrong ACK, client disconnect, timeout}, incl. '
+        'the right ACK dispatched in the loop iteration in which the time-out '
+        'fires (asyncio). '
         'Oracle (model of outstanding callbacks per sid): ids unique among a '
         "sid's outstanding callbacks; callback at most once, only for the "
         'addressed connection and id, with exactly the acknowledged args; '
@@ -63,6 +65,9 @@ def strategy(tier):
         st.fixed_dictionaries({'a': st.just('ack_right'), 'args': args}),
         st.fixed_dictionaries({'a': st.just('ack_wrong'), 'args': args}),
         st.fixed_dictionaries({'a': st.just('disc')})), max_size=3)
+    # asyncio: the right acknowledgement is dispatched in the very loop
+    # iteration in which the time-out of call() fires
+    at_expiry = st.one_of(st.none(), st.none(), st.lists(arg, max_size=2))
     op = st.one_of(
         st.fixed_dictionaries({'op': st.just('emit_cb'), 'c': ci,
                                'data': S.payload_st(max_leaves=4)}),
@@ -95,7 +100,8 @@ def strategy(tier):
         st.fixed_dictionaries({'op': st.just('call'), 'c': ci,
                                'timeout': st.sampled_from([0.5, 1, 60]),
                                'data': S.payload_st(max_leaves=3),
-                               'during': during}),
+                               'during': during,
+                               'at_expiry': at_expiry}),
     )
     return st.fixed_dictionaries({
         'aio': st.booleans(),
@@ -498,6 +504,17 @@ def _run(case, w):
                 actions()
                 w.h.loop.run_until_idle()
                 t0 = w.h.loop.time()
+                if op.get('at_expiry') is not None and not task.done() \
+                        and state['alive'] and not state['have']:
+                    sock = w.h.eio.sockets[w.t[c['t']]]
+                    for f in wire.frames(wire.ACK, c['ns'], state['id'],
+                                         list(op['at_expiry'])):
+                        w.h.loop.spawn(sock.receive(w.h.eio_packet.Packet(
+                            w.h.eio_packet.MESSAGE, f)))
+                    state['have'] = True
+                    state['result'] = _shape(list(op['at_expiry']))
+                    labels['ack_at_the_instant_of_expiry'] = True
+                    labels['nontrivial'] = True
                 while not task.done():
                     if not w.h.loop.advance():
                         raise Violation('call-never-returns', '')
